@@ -1,2 +1,132 @@
-(* placeholder: theorems follow *)
-From CMinx Require Import Base.Str Model.Writer.
+(* Properties/C20.v -- RSTWriter serialisation is pure and keeps nested content indented.
+   Only theorem statements; proofs are in Proofs/WriterFacts.v.  Model: Model/Writer.v (the
+   document as a tree of elements, elem_text / doc_text = to_text, the public API as a state
+   machine wstep / wrun over handles).  lines x = x split at newlines. *)
+From Coq Require Import String List.
+From CMinx Require Import Base.Str Model.Writer Gen.SourceLiterals Proofs.WriterFacts
+     Proofs.LiteralsMatch.
+Import ListNotations.
+
+(* serialising does not change the document and is repeatable, whatever is serialised in between *)
+Theorem C20_to_text_pure : forall hdrs st h, fst (wstep hdrs st (OToText h)) = st.
+Proof. exact to_text_pure. Qed.
+Print Assumptions C20_to_text_pure.
+
+Theorem C20_to_text_repeatable :
+  forall hdrs st ops h, forallb is_totext ops = true ->
+    fst (wrun hdrs st (OToText h :: ops ++ [OToText h])) = st
+    /\ exists out outs, snd (wrun hdrs st (OToText h :: ops ++ [OToText h])) = out :: outs ++ [out].
+Proof. exact to_text_repeatable. Qed.
+Print Assumptions C20_to_text_repeatable.
+
+(* the title frame: over- and underline = the header character repeated to the title's length *)
+Theorem C20_heading_frame :
+  forall c title,
+    heading_text [c] title
+    = [nl] ++ repeat c (length title) ++ [nl] ++ title ++ [nl] ++ repeat c (length title).
+Proof. exact heading_frame. Qed.
+Print Assumptions C20_heading_frame.
+
+Theorem C20_doc_text_starts_with_frame :
+  forall hdrs title body,
+    doc_text hdrs title body = heading_text (nth 0 hdrs []) title ++ [nl] ++ body_text hdrs 0 0 body.
+Proof. exact doc_text_starts_with_frame. Qed.
+Print Assumptions C20_doc_text_starts_with_frame.
+
+(* changing the title replaces the title and nothing else; the next serialisation re-frames it *)
+Theorem C20_retitle_reframes :
+  forall hdrs st t',
+    wstep hdrs st (OSetTitle [] t') = ({| w_title := t'; w_body := w_body st |}, WNone).
+Proof. exact retitle_reframes. Qed.
+Print Assumptions C20_retitle_reframes.
+
+(* every line of a paragraph, in order, is prefixed by exactly 3*d spaces (own text untouched) *)
+Theorem C20_para_lines :
+  forall d t, lines (para_text d t) = map (fun l => indent d ++ l) (lines t).
+Proof. exact para_lines. Qed.
+Print Assumptions C20_para_lines.
+
+Theorem C20_indent_is_3d : forall d, length (indent d) = 3 * d.
+Proof. exact length_indent. Qed.
+Print Assumptions C20_indent_is_3d.
+
+Theorem C20_field_lines :
+  forall d n t, no_nl n = true -> no_nl t = true ->
+    lines (field_text d n t) = [[]; field_line d n t].
+Proof. exact field_lines. Qed.
+Print Assumptions C20_field_lines.
+
+Theorem C20_bullet_lines :
+  forall d items, forallb no_nl items = true ->
+    lines (list_text d false items) = [] :: map (bullet_line d) items ++ [[]].
+Proof. exact bullet_lines. Qed.
+Print Assumptions C20_bullet_lines.
+
+(* every line of everything nested d levels deep is empty or starts with 3*d spaces; the content
+   of a directive at depth d is at depth d+1 *)
+Theorem C20_lines_indented :
+  forall hdrs lvl d e, plain e = true -> Forall (ind_ok d) (lines (elem_text hdrs lvl d e)).
+Proof. exact lines_indented. Qed.
+Print Assumptions C20_lines_indented.
+
+Theorem C20_dir_content_deeper :
+  forall hdrs lvl d n a o b, plain (Dir n a o b) = true ->
+    lines (elem_text hdrs lvl d (Dir n a o b)) = [] :: dir_head_line d n a :: dir_rest_lines hdrs d o b
+    /\ Forall (ind_ok (S d)) (skipn 2 (lines (elem_text hdrs lvl d (Dir n a o b)))).
+Proof. exact dir_content_deeper. Qed.
+Print Assumptions C20_dir_content_deeper.
+
+(* options directly after the heading and before any content, whatever the call order *)
+Theorem C20_options_before_content :
+  forall hdrs lvl d n a opts body,
+    elem_text hdrs lvl d (Dir n a opts body)
+    = dir_heading d n a ++ [nl]
+      ++ concat (map (fun o => option_text (S d) o ++ [nl]) opts)
+      ++ (match body with [] => [] | _ :: _ => [nl] end)
+      ++ body_text hdrs 0 (S d) body.
+Proof. exact options_before_content. Qed.
+Print Assumptions C20_options_before_content.
+
+Theorem C20_interleaving_irrelevant :
+  forall hdrs st h nm a o b lvl d ops1 ops2,
+    node_at h st = Some (Dir nm a o b, lvl, d) ->
+    forallb (addressed h) ops1 = true -> forallb (addressed h) ops2 = true ->
+    opts_of ops1 = opts_of ops2 -> kids_of ops1 = kids_of ops2 ->
+    snd (wstep hdrs (fst (wrun hdrs st ops1)) (OToText h))
+    = WText (elem_text hdrs lvl d (Dir nm a (o ++ opts_of ops1) (b ++ kids_of ops1)))
+    /\ snd (wstep hdrs (fst (wrun hdrs st ops1)) (OToText h))
+       = snd (wstep hdrs (fst (wrun hdrs st ops2)) (OToText h)).
+Proof. exact interleaving_irrelevant. Qed.
+Print Assumptions C20_interleaving_irrelevant.
+
+(* elements appear in the order they were added *)
+Theorem C20_order_preserved :
+  forall hdrs t b x, doc_text hdrs t (b ++ [x]) = doc_text hdrs t b ++ elem_text hdrs 0 0 x ++ [nl].
+Proof. exact order_preserved. Qed.
+Print Assumptions C20_order_preserved.
+
+Theorem C20_append_at_handle :
+  forall hdrs st h t nm a o b lvl d,
+    node_at h st = Some (Dir nm a o b, lvl, d) ->
+    let st' := fst (wstep hdrs st (OText h t)) in
+    snd (wstep hdrs st (OText h t)) = WNone
+    /\ node_at h st' = Some (Dir nm a o (b ++ [Para t]), lvl, d)
+    /\ w_title st' = w_title st
+    /\ length (w_body st') = length (w_body st)
+    /\ (forall h' v, is_prefix h' h = false -> node_at h' st = Some v -> node_at h' st' = Some v)
+    /\ (forall h' e l' d', strict_prefix h' h = true -> node_at h' st = Some (e, l', d') ->
+          exists e', node_at h' st' = Some (e', l', d') /\ same_head e e').
+Proof. exact append_at_handle. Qed.
+Print Assumptions C20_append_at_handle.
+
+(* the templates and the indentation unit of rstwriter.py are those the model uses *)
+Theorem C20_indent_unit_pinned : get (s"get_indents") rstwriter_strings = [[]; spaces indent_unit].
+Proof. exact indent_unit_literal. Qed.
+Print Assumptions C20_indent_unit_pinned.
+
+Theorem C20_templates_pinned :
+  get (s"Field.build_field_string") rstwriter_strings = [[nl]; F; s":"; F; s": "; F]
+  /\ get (s"Option.build_option_string") rstwriter_strings = [F; s":"; F; s": "; F]
+  /\ get (s"Heading.build_heading_string") rstwriter_strings = [[]; [nl]; F; [nl]; F; [nl]; F].
+Proof. exact (conj field_literals (conj option_literals heading_literals)). Qed.
+Print Assumptions C20_templates_pinned.
